@@ -32,9 +32,11 @@ def tally(ms):
 r1 = [m for m in metas if m.get("round") == 1]
 r2 = [m for m in metas if m.get("round") == 2]
 r3 = [m for m in metas if m.get("round") == 3]
+r4 = [m for m in metas if m.get("round") == 4]
 rej = [m for m in metas if m.get("rejected")]
-t1, t2, t3 = tally(r1), tally(r2), tally(r3)
-final_fi = sum(1 for m in metas if ((m.get("checks") or {}).get(m["property"], {}).get("kind") == "failing-input"))
+t1, t2, t3, t4 = tally(r1), tally(r2), tally(r3), tally(r4)
+final_fi = sum(1 for m in metas if not m.get("rejected") and ((m.get("checks") or {}).get(m["property"], {}).get("kind") == "failing-input"))
+valid = [m for m in metas if not m.get("rejected")]
 tfired = sum(1 for m in metas if (m.get("checks") or {}).get(m["property"], {}).get("broken_obligations"))
 
 print(f"""## 12. Seeded changes: which check catches which
@@ -43,7 +45,7 @@ The machinery was tested against realistic breakage written by **independent sub
 agent per property received only the property's text and a scratch git worktree of `/repo` (under
 `/tmp`, nothing from `/verif`), and was asked for two changes that break the property while compiling
 and passing the existing tests, each needing something specific to manifest, with a demonstration
-that fails with the change and passes without. Three rounds were run ({len(r1)} + {len(r2)} + {len(r3)} changes; from the
+that fails with the change and passes without. Four rounds were run ({len(r1)} + {len(r2)} + {len(r3)} + {len(r4)} changes; from the
 second round on each agent was also told which changes already existed for its property and had to
 find different mechanisms). Each change was confirmed here before being kept: `tools/seed_eval.py` runs the
 demonstration on the unchanged tree (must pass), applies the patch (`git apply`), runs the
@@ -52,7 +54,7 @@ demonstration again (must fail), runs `./check <property> --tier quick`, and res
 `/root/.vp/BASELINE.json`, comparing with its `stable_pass` list (`meta.json["suite"]`). Everything is
 kept under `/verif/seeded/<id>/` (`patch.diff`, `demo.py`, the agent's `notes.md`, `meta.json` with the
 property, what the change needs to manifest, what was run, the first and the final verdict; ids `-A`,
-`-B` are round 1, `-C`, `-D` round 2, `-E`, `-F` round 3). None of these changes is committed in `/repo`. Three round-1
+`-B` are round 1, `-C`, `-D` round 2, `-E`, `-F` round 3, `-G`, `-H` round 4). None of these changes is committed in `/repo`. Three round-1
 patches (C05-A, C06-A, C18-B) no longer applied after later `fix:` commits touched the same lines and
 were ported by hand to the current tree (noted in their `notes.md`).
 
@@ -61,6 +63,7 @@ were ported by hand to the current tree (noted in their `notes.md`).
 | round 1 | {len(r1)} | {t1['failing-input']} | {t1['no-failing-input-found']} | {t1['missed']} | {t1['patch did not apply (ported)']} did not apply, {t1['exit 2 (infrastructure)']} exit 2 |
 | round 2 (checks as strengthened after round 1) | {len(r2)} | {t2['failing-input']} | {t2['no-failing-input-found']} | {t2['missed']} | — |
 | round 3 (checks as strengthened after round 2) | {len(r3)} | {t3['failing-input']} | {t3['no-failing-input-found']} | {t3['missed']} | {t3['patch did not apply (ported)']} did not apply |
+| round 4 (checks as strengthened after round 3; the machine ran 12 test suites in parallel at the time) | {len(r4)} | {t4['failing-input']} | {t4['no-failing-input-found']} | {t4['missed']} | — |
 
 **Every miss had the same cause: the generator did not reach the input the change needs** — an
 entry point (stand-alone `Column`, `SeriesSchema`, `MultiIndex`, model `Config`), an option
@@ -69,16 +72,23 @@ exception class, a schedule — never a wrong theorem. Each miss was answered by
 or adding an entry point, never by special-casing the seeded patch, and the widened checks were
 re-run on the unchanged tree under several seeds before the seeds were re-evaluated. Widening also
 surfaced further genuine defects of the unchanged tree (repaired: `a7f5a9b`, `27a10dd`, `6077b65` and
-the two after it; recorded: `K_C17_builtinValuesSkipped`).
+the two after it in rounds 1–2, `72b7df1`, `362b17f`, `b4b56ff`, `efb22b6`, `9cf1734`, `4f18ff6`, `3960b4d` in rounds
+3–4; recorded: `K_C17_builtinValuesSkipped`, `K_C10_parametrised-tz-aware`). In rounds 3 and 4 the agents were
+told every earlier change and asked for other mechanisms; the first-sight rate fell accordingly (the
+remaining unexplored dimensions are the hard ones), which is the honest measure of what a
+sampling-based failing-input search covers. What changed in round 4 is the share caught by the **T-tie
+alone** (obligation broken, `no-failing-input-found`): the translators added after round 3
+(`subsample_rules.py`, `schema_mutation.py`) and the older ones (`alias_skeletons.py`, `dtype_registry.py`,
+the Lean model of the transformations) flagged changes the generators had not reached yet.
 
-**Final pass** (all checks as committed): {final_fi} of {len(metas)} caught with a concrete failing input as the
+**Final pass** (all checks as committed): {final_fi} of {len(valid)} valid changes caught with a concrete failing input as the
 replay. The T-tie (model regenerated from the source, obligations re-checked by `decide`) fired on
 {tfired} of them, always together with or ahead of the differential; when only it fires the line ends
 `no-failing-input-found`.
 """)
 if rej:
-    print("Changes that were **not kept as valid seeds** because they fail tests of the pinned suite (the agents had run subsets only): "
-          + "; ".join(f"{m['id']} ({esc(m['rejected'])})" for m in rej) + ". They stay in the directory for the record and are caught all the same.\n")
+    print("Changes that were **not kept as valid seeds**: "
+          + "; ".join(f"{m['id']} ({esc(m['rejected'])})" for m in rej) + ". They stay in the directory for the record.\n")
 print("| Seed | Change (file) | First verdict | What was strengthened | Final verdict: the failing input reported |")
 print("|---|---|---|---|---|")
 for m in metas:
